@@ -80,6 +80,18 @@ def check(chk):
         locked = all(any(l == ('self', '_condition') for l, w in held(c)) for c in calls)
         chk.judge(mx <= 1 and locked and calls, 'C32.bound', f, '%s: at most one new statement per completion, under self._condition' % qual_of(f),
                   'a completion can start %s statements%s' % ('several' if mx > 1 else 'no', '' if locked else ' outside the condition'))
+    # publication and the next start form one critical section: the consumer's "all done" test (_current vs _exec_count) reads both
+    chk.rule('C32.atomic', '_put_result: the result is published (heappush / _current += 1) and the next statement is started (_execute_next advances _exec_count) inside the same `with self._condition` block')
+    for f, pub in ((gen, lambda n: isinstance(n, ast.Call) and src(n.func) == 'heappush'), (lst, lambda n: isinstance(n, ast.AugAssign) and src(n.target) == 'self._current')):
+        pubs = [n for n in body_walk(f) if pub(n)]
+        nxt = [n for n in body_walk(f) if isinstance(n, ast.Call) and src(n.func) == 'self._execute_next']
+        ok = len(pubs) == 1 and len(nxt) == 1
+        if ok:
+            wp = [w for l, w in held(pubs[0]) if l == ('self', '_condition')]
+            wn = [w for l, w in held(nxt[0]) if l == ('self', '_condition')]
+            ok = bool(wp) and bool(wn) and any(a is b for a in wp for b in wn)
+        chk.judge(ok, 'C32.atomic', f, '%s: publish and start-next in one critical section' % qual_of(f),
+                  'the result is published and the condition released before the next statement is counted: a consumer that runs in the gap sees _current == _exec_count and stops although statements remain (results are lost)')
     # fail fast
     chk.judge('if self._exception and self._fail_fast' in src(lr) and src(lr).count('raise self._exception') == 2, 'C32.failfast', lr, 'list results: stored exception raised (also without waiting)', 'fail-fast raise missing')
     chk.judge('if self._fail_fast and (not res[0])' in src(gr) and 'raise res[1]' in src(gr), 'C32.failfast', gr, 'generator results: failed result raised when fail_fast', 'fail-fast raise missing')
